@@ -82,6 +82,10 @@ type parser struct {
 	col    int
 	onDeck byte
 	eof    bool
+
+	// tokLine and tokCol are the position of the start of the last token read.
+	tokLine int
+	tokCol  int
 }
 
 // ParseValue parses a reader into a value where the input follows the SDL
@@ -195,6 +199,10 @@ func (p *parser) skipSpace() (b byte, err error) {
 
 func (p *parser) readToken() (string, error) {
 	b, err := p.skipSpace()
+	// Where the token starts. The position after the token depends on what
+	// follows it, a line break would put it on the next line.
+	p.tokLine = p.line
+	p.tokCol = p.col
 	if err != nil || b == 0 {
 		return "", err
 	}
